@@ -5,10 +5,12 @@
      ProofsPair, ProofsPair2   pair positioning
      ProofsMain   the compiler-correctness theorem without contextual lookups
      ProofsChain  ... extended to contextual lookups that call named lookups
-     ProofsInline inline single / multiple rules and their anonymous lookups (repaired compiler)
+     ProofsInline, ProofsInlineLiga   inline rules and their anonymous lookups
+     ProofsFull   layout of the compiled lookup list, nested application at every depth, the theorem with
+                  inline single / multiple rules
    plus the concrete witnesses used by the `_refuted` theorems. *)
 From Coq Require Import List NArith ZArith Bool Arith Lia.
-From FV.C11 Require Export Model Wf ProofsBase ProofsGsub ProofsLiga ProofsLiga2 ProofsPair ProofsPair2 ProofsMain ProofsChain ProofsInline ProofsInlineLiga.
+From FV.C11 Require Export Model Wf ProofsBase ProofsGsub ProofsLiga ProofsLiga2 ProofsPair ProofsPair2 ProofsMain ProofsChain ProofsInline ProofsInlineLiga ProofsFull.
 Import ListNotations.
 Open Scope N_scope.
 
@@ -24,7 +26,7 @@ Definition w_conflict : eprog :=
 
 Lemma w_conflict_facts :
   no_chain w_conflict = true /\ wf_eprog w_conflict = false
-  /\ apply_ot (compile_mini w_conflict) w_sel [0] <> interp_fea w_conflict w_sel [0].
+  /\ apply_ot (compile_repo w_conflict) w_sel [0] <> interp_fea w_conflict w_sel [0].
 Proof. split; [reflexivity|]. split; [reflexivity|]. intro H. vm_compute in H. discriminate. Qed.
 
 (* feature f { sub c' x by x; sub [x c]' c by b; } f;
@@ -135,3 +137,48 @@ Proof.
   - apply existsb_exists in E as [x [Hx Ex]]. apply str_eqb_eq in Ex. subst. exact Hx.
   - apply in_or_app. right. left. reflexivity.
 Qed.
+
+(* ---- the compiler in /repo on the witnesses --------------------------------------------------------------------- *)
+Definition agree_repo_upto (e : eprog) (n : nat) : bool :=
+  forallb (fun s => pitems_eqb (apply_ot (compile_repo e) w_sel s) (interp_fea e w_sel s))
+          (strings_upto [0; 1; 2; 3; 4] n).
+
+Lemma w_repo_facts :
+  agree_repo_upto w_inline 4 = true /\ agree_repo_upto w_imulti 4 = true
+  /\ apply_ot (compile_repo w_iliga) w_sel [0; 1; 2] <> interp_fea w_iliga w_sel [0; 1; 2].
+Proof. split; [vm_compute; reflexivity|]. split; [vm_compute; reflexivity|]. intro H. vm_compute in H. discriminate. Qed.
+
+Lemma w_full_ok_facts :
+  (wf_eprog w_inline = true /\ full_ok w_inline = true)
+  /\ (wf_eprog w_imulti = true /\ full_ok w_imulti = true)
+  /\ (wf_eprog w_ctx = true /\ full_ok w_ctx = true)
+  /\ (wf_eprog w_good = true /\ full_ok w_good = true)
+  /\ interp_fea w_inline w_sel [2; 4; 4; 2] = [(4, vzero); (4, vzero); (1, vzero); (2, vzero)].
+Proof. repeat split; vm_compute; reflexivity. Qed.
+
+Lemma compile_repo_preserves : forall e sel s,
+  wf_eprog e = true -> full_ok e = true -> apply_ot (compile_repo e) sel s = interp_fea e sel s.
+Proof. exact (compile_preserves_inline_sm false). Qed.
+
+Lemma compile_prog_repo_preserves : forall incl gm (p : prog) (e : eprog) sel s,
+  elab incl gm p = Some e -> wf_eprog e = true -> full_ok e = true ->
+  compile_prog incl gm p = Some (compile_repo e)
+  /\ interp_prog incl gm p sel s = Some (apply_ot (compile_repo e) sel s).
+Proof.
+  intros incl gm p e sel s E W F. unfold compile_prog, interp_prog. rewrite E. simpl.
+  split; [reflexivity|]. rewrite (compile_repo_preserves e sel s W F). reflexivity.
+Qed.
+
+Lemma unrepaired_range_witness :
+  exists a b l, range_named a b = Some l /\ ~ In b l /\ exists l', range_named_spec a b = Some l' /\ In b l'.
+Proof.
+  exists [103; 48; 49], [103; 48; 52], [[103; 48; 49]; [103; 48; 50]; [103; 48; 51]].
+  destruct w_range_facts as [R1 R2]. split; [exact R1|]. split.
+  - intros [H|[H|[H|[]]]]; discriminate.
+  - eexists. split; [exact R2|]. simpl. auto.
+Qed.
+
+Lemma inline_ok_witnesses :
+  forallb inline_ok (concat (map sl_rules (e_gsub w_inline))) = true
+  /\ forallb inline_ok (concat (map sl_rules (e_gsub w_imulti))) = true.
+Proof. split; reflexivity. Qed.
